@@ -81,6 +81,12 @@ Proof.
     rewrite E1, E2, !N.eqb_refl. cbn. reflexivity.
 Qed.
 
+Lemma confirm_needs_not_blacklisted e w n w' :
+  pay_wf (pay e) -> confirm_tickets e w n = Ok w' -> blacklisted (st w) (caller e) = false.
+Proof.
+  intros Hwf E. apply (confirm_iff _ _ _ _ Hwf) in E. destruct E as [(_ & _ & _ & _ & Hb & _) _]. exact Hb.
+Qed.
+
 (** Frame: the call changes nothing but the caller's confirmed count and the event log. *)
 Lemma confirm_effect_frame e w n :
   let w' := confirm_effect e w n in
